@@ -11,4 +11,26 @@ DEFS = {
                   ' ite(in_tie_at(T, j) and (T[j] == 0 or j == n - 1), 2, 0))'),
     # the reader ties entry j with entry j+1  (j < n-1)
     'tied_next': (['T', 'j', 'n'], 'T[j] != 0 and j < n - 1'),
+
+    # ---- Model / Pair vocabulary (DESIGN section 5)
+    # a usable pair of model m: a real object with the attributes the reader sets, indices in range
+    'pair_ok': (['m', 'p'],
+                "p != None and has(p, 'studentID') and has(p, 'projectID') and has(p, 'student_index') and has(p, 'project_index')"
+                " and has(p, 'rank_student') and has(p, 'lecturerID') and has(p, 'lecturer_index')"
+                " and p.student_index == p.studentID - 1 and p.project_index == p.projectID - 1 and p.lecturer_index == p.lecturerID - 1"
+                " and 0 <= p.student_index and p.student_index < m.num_students"
+                " and 0 <= p.project_index and p.project_index < m.num_projects"
+                " and 0 <= p.lecturer_index and p.lecturer_index < m.num_lecturers"
+                " and p.lecturerID == m.proj_lecturers[p.project_index]"
+                " and p.rank_student >= 1"),
+    'sizes_ok': (['m'],
+                 "m.num_students >= 0 and m.num_projects >= 0 and m.num_lecturers >= 0 and len(m.pairs) == m.num_students"
+                 " and len(m.proj_lower_quotas) == m.num_projects and len(m.proj_upper_quotas) == m.num_projects"
+                 " and len(m.proj_lecturers) == m.num_projects and len(m.lec_lower_quotas) == m.num_lecturers"
+                 " and len(m.lec_targets) == m.num_lecturers and len(m.lec_upper_quotas) == m.num_lecturers"),
+    # every pair in the main structure is usable and sits in its own student's row
+    'pairs_ok': (['m'], "forall(i, 0, len(m.pairs), forall(c, 0, len(m.pairs[i]), pair_ok(m, m.pairs[i][c]) and m.pairs[i][c].student_index == i))"),
+    # p is one of the model's pairs
+    'is_model_pair': (['m', 'p'], "exists(i, 0, len(m.pairs), exists(c, 0, len(m.pairs[i]), m.pairs[i][c] == p))"),
+    'rl': (['p'], "ite(has(p, 'rank_lecturer'), p.rank_lecturer, 0)"),
 }
